@@ -43,11 +43,16 @@ func linEnd(pk *packagesPackage, x ast.Expr) (a, k int64, ok bool) {
 // c12len: Len() = length of the value without trailing blanks.
 func c12len(c *core.Ctx) {
 	const R = "C12.len"
-	c.Rule(R, "structure of (*formats/json.scanner).Length: (end) a lexeme's End() is the inclusive index of its last byte, so after an ordinary lexeme the candidate length is End()+1; the EndTop lexeme sits ON the first trailing non-blank byte, so there the candidate is exactly End() (End()-1 is one short when no blank separates value and trailer: `{}x`); (trim) the final loop then drops exactly the RFC 8259 whitespace bytes SP, TAB, LF, CR from the end of the candidate - the trimming predicate is evaluated for all 256 bytes. Decides the shape of the arithmetic, not the lexeme positions themselves")
+	lenArith(c, R, "(*formats/json.scanner).Length", func(k int64) bool { return k == 0 }, "candidate length = End()+0", "structure of (*formats/json.scanner).Length: (end) a lexeme's End() is the inclusive index of its last byte, so after an ordinary lexeme the candidate length is End()+1; the EndTop lexeme sits ON the first trailing non-blank byte, so there the candidate is exactly End() (End()-1 is one short when no blank separates value and trailer: `{}x`); (trim) the final loop then drops exactly the RFC 8259 whitespace bytes SP, TAB, LF, CR from the end of the candidate - the trimming predicate is evaluated for all 256 bytes. Decides the shape of the arithmetic, not the lexeme positions themselves")
+}
+
+// lenArith: the arithmetic of a scanner's Length(): candidate after a lexeme / at EndTop, then the trim loop.
+func lenArith(c *core.Ctx, R, fnName string, endTopOK func(k int64) bool, endTopWhat, doc string) {
+	c.Rule(R, doc)
 	c.Floor(R, 3)
-	d := c.P.FindDecl("(*formats/json.scanner).Length")
+	d := c.P.FindDecl(fnName)
 	if d == nil {
-		c.Unresolved(R, "(*formats/json.scanner).Length")
+		c.Unresolved(R, fnName)
 		return
 	}
 	pos := c.P.Pos(d.Decl.Pos())
@@ -84,7 +89,7 @@ func c12len(c *core.Ctx) {
 		}
 		return true
 	})
-	chk := func(key string, as *ast.AssignStmt, wantK int64, why string) {
+	chk := func(key string, as *ast.AssignStmt, okK func(int64) bool, whatK string, why string) {
 		if as == nil {
 			c.Bad(R, key, pos, key, "undecided: no assignment `length = ...` found")
 			return
@@ -94,10 +99,10 @@ func c12len(c *core.Ctx) {
 			c.Bad(R, key, c.P.Pos(as.Pos()), "candidate length "+core.ExprStr(as.Rhs[0]), "undecided: not of the form End() + constant")
 			return
 		}
-		c.Check(a == 1 && k == wantK, R, key, c.P.Pos(as.Pos()), core.F("candidate length = End()%+d", wantK), core.F("candidate length is %d*End()%+d: %s", a, k, why))
+		c.Check(a == 1 && okK(k), R, key, c.P.Pos(as.Pos()), whatK, core.F("candidate length is %d*End()%+d: %s", a, k, why))
 	}
-	chk("Length:endtop", endTopAssign, 0, "the EndTop lexeme lies on the first trailing byte; any other offset cuts the last byte of a value directly followed by the trailer (`{}x`) or includes the trailer")
-	chk("Length:lexeme", otherAssign, 1, "End() is the inclusive index of the lexeme's last byte, the length up to it is End()+1")
+	chk("Length:endtop", endTopAssign, endTopOK, endTopWhat, "the EndTop lexeme lies on the first trailing byte; any other offset cuts the last byte of a value directly followed by the trailer (`{}x`) or includes the trailer")
+	chk("Length:lexeme", otherAssign, func(k int64) bool { return k == 1 }, "candidate length = End()+1", "End() is the inclusive index of the lexeme's last byte, the length up to it is End()+1")
 	// --- (trim)
 	var trimIf *ast.IfStmt
 	var byteVar string
